@@ -136,6 +136,52 @@ class Harness:
         return p, n, getattr(self.conn, self.param).detach().clone() - before
 
 
+class MultiHarness:
+    """two cells that share ONE postsynaptic neuron group (Biclique: c0, c1 -> n0), registered in ONE trainer with
+    per-cell hyper-parameter overrides: the trainer's monitor pool may share monitors between the cells only where
+    that is observationally equivalent"""
+
+    def __init__(self, trainer, dt=1.0, B=1, delay_steps=None, seed=0, batch_reduction=torch.sum, hypers=None, dtype=None):
+        self.name, self.dt, self.B = trainer, dt, B
+        self.hypers = [{**DEFAULT_HYPER, **h} for h in hypers]
+        if trainer in NEEDS_DELAY and delay_steps is None:
+            delay_steps = 2
+        delay = None if delay_steps is None else 3 * dt
+        g = torch.Generator().manual_seed(seed)
+        self.conns = [fac.make_connection("dense", dt, syn="delta", B=B, delay=delay, nin=3, nout=2) for _ in range(2)]
+        for c in self.conns:
+            fac.randomize(c, g, delay_steps=delay_steps, dt=dt)
+            c.updater = c.defaultupdater()
+        self.neuron = ExactNeuron((2,), dt, rest_v=-60.0, thresh_v=-50.0, batch_size=B)
+        self.layer = neural.Biclique([("c0", self.conns[0]), ("c1", self.conns[1])], [("n0", self.neuron)], combine="sum")
+        self.trainer = build_trainer(trainer, {}, batch_reduction, per_cell=True)
+        for i, nm in enumerate(("a", "b")):
+            self.trainer.register_cell(nm, self.layer.get_cell(f"c{i}", "n0"), batch_reduction=batch_reduction,
+                                       **trainer_args(trainer, self.hypers[i]))
+        if dtype is not None:
+            self.layer.to(dtype)
+            self.trainer.to(dtype)
+        self.param = "delay" if trainer in LEARNS_DELAY else "weight"
+
+    def step_apply(self, pres, post, reward=None, scale=1.0):
+        self.layer({"c0": (pres[0],), "c1": (pres[1],)}, neuron_kwargs={"n0": {"override": post}})
+        if self.name in THREE_FACTOR:
+            self.trainer(reward, scale)
+        else:
+            self.trainer()
+        out = []
+        for c in self.conns:
+            acc = getattr(c.updater, self.param)
+            ref = getattr(c, self.param)
+            z = torch.zeros_like(ref)
+            p, n = acc.pos, acc.neg
+            p, n = (z if p is None else p.detach().clone()), (z if n is None else n.detach().clone())
+            before = ref.detach().clone()
+            c.update()
+            out.append((p, n, getattr(c, self.param).detach().clone() - before))
+        return out
+
+
 # ------------------------------------------------------------------------------------------
 # oracle
 # ------------------------------------------------------------------------------------------
